@@ -403,6 +403,29 @@ def D15():
     return f
 
 
+def D16():
+    """C03/C12: a recorded file below a folder that is ignored later, re-included by a negated pattern"""
+    f = []
+    with tempdir() as d:
+        r = _root(d)
+        mk(r, {"s/a.txt": "a", "s/b.bin": "b", "top.txt": "t"})
+        run("create", [r, "-h", "md5"], NOW)
+        for cmd, args in (("verify", []), ("diff", []), ("create", ["-h", "md5"])):
+            for pats in (["s", "!a.txt"], ["*", "!*.txt"]):
+                a = [r] + args
+                for p in pats:
+                    a += ["-i", p]
+                x = run(cmd, a, NOW)
+                if cmd != "create" and (x.exit != 0 or "missing" in x.out):
+                    f.append(f"{cmd} -i {' -i '.join(pats)} on the unchanged tree: exit {x.exit}, output {x.out[-120:]!r}")
+                if cmd == "create":
+                    # judged on a fresh copy per pattern set (create stores the patterns)
+                    if x.exit != 0:
+                        f.append(f"create -i {' -i '.join(pats)} on the unchanged tree: exit {x.exit}, output {x.out[-120:]!r}")
+                    break
+    return f
+
+
 ALL = {
     k: v
     for k, v in list(globals().items())
